@@ -68,9 +68,25 @@ def cases(tier, rng):
         ops.append("status")
         out.append("p%d proxy %s %s%s / %s" % (k, pair[0], pair[1], " cap" if cap else "", " / ".join(ops)))
         k += 1
+    # back-pressure on a connection the proxy forwards to (writer answers Pending / takes a few bytes per call): every
+    # forwarded message still arrives whole
+    for plan in ("p", "p,p,w1", "w1,p,w2,p", "w3,p,p,p,w1,p"):
+        for size in (1, 300, 70000):
+            ops = ["fattach a REQ id=4361", "battach x REP id=5778", "fwplan a " + plan, "bwplan x " + plan,
+                   "ffeed a " + W.tok(W.msg([b"", b"q0", b"y" * size])), "settle",
+                   "bfeed x " + W.tok(W.msg([b"Ca", b"", b"r0", b"z" * size])), "settle", "settle",
+                   "fwire a", "bwire x", "status"]
+            out.append("p%d proxy ROUTER DEALER / %s" % (k, " / ".join(ops)))
+            k += 1
     # the real REQ - ROUTER/DEALER proxy - REP chain on the real runtime (second sentence of the property)
     out += chaincases.cases(tier, rng, k)
     return out
+
+
+def model_cases(case_lines):
+    # the model's writers accept everything at once: back-pressure plans exist on the implementation side only
+    import re
+    return [re.sub(r" / [fb]wplan \S+ \S+", "", l) for l in case_lines]
 
 
 def canon(obs, line=None):
